@@ -233,3 +233,29 @@ def check_derived(api, ob, g, fail):
     # default domain indices of a union keep the two grids apart
     if set(u2.domain_indices[: g.number_of_elements]) & set(u2.domain_indices[g.number_of_elements :]):
         fail("union", "default domain indices of the two grids overlap")
+    # three and four grids: (grid number, old domain) -> new domain must be injective; normalised indices are 0..N-1
+    g3 = api.Grid(g.vertices - shift, g.elements, g.domain_indices)
+    g4 = api.Grid(g.vertices + 2 * shift, g.elements, (g.domain_indices.astype(int) + 2).astype("uint32"))
+    for grids, kw, label in (([g, g2, g3], {}, "3 grids, default"), ([g, g2, g3, g4], {}, "4 grids, default"),
+                             ([g, g4, g2], {"normalize_domain_indices": False}, "3 grids, normalize_domain_indices=False")):
+        un = union(grids, **kw)
+        ne = g.number_of_elements
+        if un.number_of_elements != len(grids) * ne:
+            fail("union", "%s: element count" % label)
+            continue
+        classes = {}
+        ok = True
+        for k, gk in enumerate(grids):
+            for e in range(ne):
+                key = (k, int(gk.domain_indices[e]))
+                new = int(un.domain_indices[k * ne + e])
+                if classes.setdefault(key, new) != new:
+                    ok = False
+        if not ok:
+            fail("union", "%s: one (grid, domain) class is mapped to several domain indices" % label)
+        elif len(set(classes.values())) != len(classes):
+            fail("union", "%s: %d distinct (grid, domain) classes are mapped onto %d domain indices" % (label, len(classes), len(set(classes.values()))))
+        elif not kw and sorted(set(classes.values())) != list(range(len(classes))):
+            fail("union", "%s: normalised domain indices are %s, expected 0..%d" % (label, sorted(set(classes.values())), len(classes) - 1))
+        if abs(un.volumes.sum() - len(grids) * g.volumes.sum()) > 1e-9 * max(1, g.volumes.sum()):
+            fail("union", "%s: surface area changed" % label)
